@@ -603,7 +603,8 @@ def calc_correction(chunks, cache, corrprods, cal_products, data_freqs,
                 # Pick closest cal channel for each data channel
                 expand = np.abs(data_freqs[:, np.newaxis]
                                 - cal_stream_freqs[np.newaxis, :]).argmin(axis=-1)
-                channel_maps[cal_product] = lambda g, channels: g[expand[channels]]
+                # Bind expand now, as it differs between cal streams (closures bind late)
+                channel_maps[cal_product] = lambda g, channels, expand=expand: g[expand[channels]]
     final_cal_products = list(corrections.keys())
     if not final_cal_products:
         return final_cal_products, None
